@@ -209,8 +209,8 @@ func (w *World) NewPeer(spec *TorSpec, cfg PeerCfg) *RefPeer {
 	p.Addr = netip.AddrPortFrom(ip, uint16(cfg.Port))
 	p.Have = make([]bool, spec.Geo.NPieces)
 	for i := range p.Have {
-		if cfg.Have != nil && cfg.Have(i) {
-			p.Have[i] = true
+		if cfg.Have != nil && cfg.Have(i) && spec.Live(i) {
+			p.Have[i] = true // (nobody can hold a piece of a sparse torrent that cannot be verified)
 		}
 	}
 	p.Viol = w.rc.Fail
@@ -649,7 +649,7 @@ func (p *RefPeer) Choke() {
 
 // SetHave changes what we have and tells the system.
 func (p *RefPeer) SetHave(i int, have bool) {
-	if p.Closed || i < 0 || i >= len(p.Have) {
+	if p.Closed || i < 0 || i >= len(p.Have) || !p.Spec.Live(i) {
 		return
 	}
 	if have {
@@ -837,7 +837,7 @@ func (p *RefPeer) answer(r *sysReq) {
 	}
 	simrt.Probe(fmt.Sprintf("answer-kind-%d", r.Kind))
 	if r.Kind != AnsReject && r.Kind != AnsSilent {
-		for i := 0; i < p.Spec.Geo.NPieces; i++ {
+		for _, i := range p.Spec.LivePieces() {
 			// any data we send may end up in any piece (misplaced, wrong index)
 			if r.Kind == AnsRight || r.Kind == AnsDuplicate || r.Kind == AnsLong {
 				p.W.noteHoldable(p.Spec, int(m.Index))
@@ -932,7 +932,7 @@ func (p *RefPeer) onPiece(m refwire.Piece) {
 	// index*pieceSize+begin of the torrent
 	var truth []byte
 	if abs := int64(m.Index)*p.Spec.Geo.PieceSize + int64(m.Begin); abs >= 0 && abs+int64(len(m.Data)) <= p.Spec.Geo.Length {
-		truth = p.Spec.Content[abs : abs+int64(len(m.Data))]
+		truth = p.Spec.Bytes(abs, int64(len(m.Data)))
 	}
 	if len(m.Data) > 0 && (truth == nil || !bytes.Equal(truth, m.Data)) {
 		p.Viol("C16", "upload-content", "", "%s: piece message (%d, %d, %d bytes) does not carry the torrent's content at that range", p.Cfg.Name, m.Index, m.Begin, len(m.Data))
